@@ -155,7 +155,8 @@ def gen(rng, tier, i):
             hs, proto = sc.client_handshake(li, oip, oport, variant="5p" if li["kind"] == "socks" else None)
             whole = bytes.fromhex(hs[0]["hex"])
             cut = rng.randint(0, len(whole) - 1)
-            ops = ([send(whole[:cut])] if cut else []) + [op("sleep", ms=rng.choice([0, 10, 300])), op("close")]
+            # (the long pauses: a client that dawdles in the middle of its request exists, and is listed, all the while)
+            ops = ([send(whole[:cut])] if cut else []) + [op("sleep", ms=rng.choice([0, 10, 300, 4000, 9000])), op("close")]
             c.update({"proto": proto, "target": None, "connector": None, "hsfail": True})
         elif kind == "badreq":
             junk = rng.choice([b"GET / HTTP/1.1\r\nHost: x\r\n\r\n", b"\x07\x01\x00", b"CONNECT nohostport HTTP/1.1\r\n\r\n", b"\r\n\r\n", b"\x05\x01\x00\x05\x01\x00\x09"])
@@ -363,7 +364,7 @@ def oracle(plan, out):
             if t_close is not None and tpoll > t_close + 8_000_000 and src in live_src:
                 v("live-after-close", "%s from %s is still listed as live %.1fs after it ended" % (c["cid"], src, (tpoll - t_close) / 1e6))
             margin = 2_500_000 if meta["splice"] else 50_000  # the kernel lane notices an accept only when the clock steps
-            if c["kind"] in ("ok", "ok-early", "idle") and t_close is not None and t_open + margin < tpoll < t_close - margin and src not in live_src:
+            if c["kind"] in ("ok", "ok-early", "idle", "abort-hs") and t_close is not None and t_open + margin < tpoll < t_close - margin and src not in live_src:
                 v("live-missing", "%s from %s is open (%.3f..%.3fs) but missing from /live polled at %.3fs" % (c["cid"], src, t_open / 1e6, t_close / 1e6, tpoll / 1e6))
     return V
 
